@@ -197,6 +197,10 @@ func CountFunc(query *Query, current Map, functionOptions *FunctionOptions, args
 		}
 		return len(slice), nil
 	}
+	// COUNT(1): a constant is there for every row
+	if _, isColumn := args[0].([]any); !isColumn && args[0] != nil && len(args) == 1 {
+		return CountFunc(query, current, functionOptions, nil)
+	}
 	slice, err := AsType[[]any](args[0])
 	if err != nil {
 		return nil, err
